@@ -31,10 +31,21 @@ const COLORS: &[&str] = &[
 ];
 const ATTRS: &[&str] = &["bold", "ul", "italic", "dim", "reverse", "strike", "ol", "blink"];
 const STYLE_OPTS: &[&str] = &[
-    "plus-style", "minus-style", "plus-emph-style", "minus-emph-style", "zero-style", "file-style", "hunk-header-style", "commit-style", "line-numbers-minus-style", "line-numbers-plus-style", "line-numbers-zero-style", "grep-file-style",
+    "plus-style", "minus-style", "zero-style", "plus-emph-style", "minus-emph-style", "file-style", "hunk-header-style", "commit-style", "line-numbers-minus-style", "line-numbers-plus-style", "line-numbers-zero-style", "grep-file-style",
     "grep-line-number-style", "whitespace-error-style", "minus-non-emph-style", "plus-non-emph-style", "minus-empty-line-marker-style", "plus-empty-line-marker-style",
 ];
 const BUILTIN_FLAGS: &[&str] = &["raw", "diff-highlight", "diff-so-fancy", "navigate", "line-numbers", "side-by-side", "hyperlinks", "color-only"];
+
+/// A style value: a literal style string or, one time in four, the NAME of another style option
+/// (delta resolves such references; only options earlier in STYLE_OPTS are referenced, so there
+/// are no cycles).
+fn style_value(rng: &mut Rng, for_opt: &str) -> String {
+    let idx = STYLE_OPTS.iter().position(|o| *o == for_opt).unwrap_or(0);
+    if idx > 0 && rng.chance(1, 4) {
+        return STYLE_OPTS[rng.below(idx as u64) as usize].to_string();
+    }
+    style_string(rng)
+}
 
 fn style_string(rng: &mut Rng) -> String {
     let mut parts: Vec<String> = Vec::new();
@@ -57,7 +68,7 @@ pub fn gen_case(seed: u64, idx: usize) -> Case {
         let mut gc = String::from("[delta]\n");
         for _ in 0..rng.range(1, 5) {
             let o = *rng.pick(STYLE_OPTS);
-            let s = style_string(&mut rng);
+            let s = style_value(&mut rng, o);
             if rng.chance(1, 2) {
                 args.push(format!("--{}", o));
                 args.push(s);
@@ -95,12 +106,25 @@ pub fn gen_case(seed: u64, idx: usize) -> Case {
             gc.push_str(&format!("\t{} = true\n", f));
         }
         for _ in 0..rng.range(0, 2) {
-            gc.push_str(&format!("\t{} = {}\n", rng.pick(STYLE_OPTS), style_string(&mut rng)));
+            let o = *rng.pick(STYLE_OPTS);
+            gc.push_str(&format!("\t{} = {}\n", o, style_value(&mut rng, o)));
         }
         gitconfig = Some(gc);
     }
+    // style options on the command line of rendering runs too (literal styles and references)
+    let mut seen_opts: Vec<&str> = Vec::new();
+    for _ in 0..rng.range(0, 4) {
+        let o = *rng.pick(&STYLE_OPTS[..12]);
+        if seen_opts.contains(&o) {
+            continue;
+        }
+        seen_opts.push(o);
+        args.push(format!("--{}", o));
+        args.push(style_value(&mut rng, o));
+    }
     let (kind, stdin) = if roll < 8 {
-        let gp = gen::random_params(&mut rng, opts.line_buffer_size.min(8));
+        let mut gp = gen::random_params(&mut rng, opts.line_buffer_size.min(8));
+        gp.similar_pairs = true; // within-line edits: emph / non-emph styles matter
         ("diff", gen::to_bytes(&gen::generate(&mut rng, &gp)))
     } else if roll == 8 {
         let n = rng.range(3, 25);
